@@ -211,7 +211,7 @@ def run(rep, facts, tier):
         mod.run(sub, {"A": f}, tier)
         viol = {k: (m, w) for k, m, w in sub.violations}
         for k, ok, nt in sub.obligations:
-            if not re.search(r"(^|[/:<& ])fp(::|/|$)|fields::fp::", k):
+            if not re.search(r"(^|[/:<& ])fp(::|/| as |$)|fields::fp::", k):
                 continue
             nfp += 1
             m, w = viol.get(k, ("holds", None))
